@@ -637,3 +637,38 @@ package thrift
 //@       (r == parser.FieldType_Required || r == parser.FieldType_Default || opts.SetOptionalBitmap))
 //@   ensures others: forall j :: 0 <= j && j < 65536 && j != int(f.id) ==> bit(st.requires, FieldID(j)) == old(bit(st.requires, FieldID(j)))
 //@   modifies f.required, st.requires, heap
+
+// ---- zero values for absent fields (C16) ---------------------------------------------------------------------------
+// WriteEmpty appends exactly the Thrift-binary zero value of the type: tmin(type) bytes, all zero except the element /
+// key / value type bytes that head an empty container (an empty struct is the STOP byte); any other type is an error
+// and nothing is written.
+//@ pure zkind(t Type) bool = t == BOOL || t == BYTE || t == I16 || t == I32 || t == I64 || t == DOUBLE || t == STRING || t == LIST || t == SET || t == MAP || t == STRUCT
+//@ spec (*BinaryProtocol).WriteEmpty
+//@   props C16 C19
+//@   requires desc: desc != nil && (desc.typ == LIST || desc.typ == SET ==> desc.elem != nil) && (desc.typ == MAP ==> desc.key != nil && desc.elem != nil) && \
+//@       !samerg(desc, p.Buf) && !samerg(desc.elem, p.Buf) && !samerg(desc.key, p.Buf) && !samerg(desc, p)
+//@   ensures ok: zkind(desc.typ) ==> r0 == nil && len(p.Buf) == old(len(p.Buf)) + tmin(desc.typ)
+//@   ensures bad: !zkind(desc.typ) ==> r0 != nil && len(p.Buf) == old(len(p.Buf)) && same(p.Buf, old(p.Buf))
+//@   ensures prefix: forall i :: 0 <= i && i < old(len(p.Buf)) ==> p.Buf[i] == old(p.Buf[i])
+//@   ensures zeros: zkind(desc.typ) && desc.typ != LIST && desc.typ != SET && desc.typ != MAP ==> forall k :: 0 <= k && k < tmin(desc.typ) ==> p.Buf[old(len(p.Buf)) + k] == 0
+//@   ensures list: desc.typ == LIST || desc.typ == SET ==> p.Buf[old(len(p.Buf))] == byte(desc.elem.typ)
+//@   ensures listcount: desc.typ == LIST || desc.typ == SET ==> forall k :: 1 <= k && k < 5 ==> p.Buf[old(len(p.Buf)) + k] == 0
+//@   ensures map: desc.typ == MAP ==> p.Buf[old(len(p.Buf))] == byte(desc.key.typ) && p.Buf[old(len(p.Buf)) + 1] == byte(desc.elem.typ)
+//@   ensures mapcount: desc.typ == MAP ==> forall k :: 2 <= k && k < 6 ==> p.Buf[old(len(p.Buf)) + k] == 0
+//@   ensures read: p.Read == old(p.Read)
+//@   modifies p.Buf, p.Buf[len(p.Buf):cap(p.Buf)]
+
+// WriteDefaultOrEmpty: a field with a declared default gets exactly the default's pre-encoded bytes, any other field
+// its type's zero value (WriteEmpty).
+//@ spec (*BinaryProtocol).WriteDefaultOrEmpty
+//@   props C16 C19
+//@   requires field: field != nil && !samerg(field, p.Buf) && !samerg(field, p) && (field.defaultValue != nil ==> !samerg(field.defaultValue, p.Buf) && !samerg(field.defaultValue, p) && \
+//@       !samerg(field.defaultValue.thriftBinary, p.Buf))
+//@   requires desc: field.defaultValue == nil ==> field.typ != nil && (field.typ.typ == LIST || field.typ.typ == SET ==> field.typ.elem != nil) && (field.typ.typ == MAP ==> field.typ.key != nil && field.typ.elem != nil) && \
+//@       !samerg(field.typ, p.Buf) && !samerg(field.typ.elem, p.Buf) && !samerg(field.typ.key, p.Buf) && !samerg(field.typ, p)
+//@   ensures dflt: field.defaultValue != nil ==> r0 == nil && len(p.Buf) == old(len(p.Buf)) + len(field.defaultValue.thriftBinary)
+//@   ensures dfltbytes: field.defaultValue != nil ==> forall k :: 0 <= k && k < len(field.defaultValue.thriftBinary) ==> p.Buf[old(len(p.Buf)) + k] == field.defaultValue.thriftBinary[k]
+//@   ensures empty: field.defaultValue == nil && zkind(field.typ.typ) ==> r0 == nil && len(p.Buf) == old(len(p.Buf)) + tmin(field.typ.typ)
+//@   ensures bad: field.defaultValue == nil && !zkind(field.typ.typ) ==> r0 != nil && len(p.Buf) == old(len(p.Buf))
+//@   ensures prefix: forall i :: 0 <= i && i < old(len(p.Buf)) ==> p.Buf[i] == old(p.Buf[i])
+//@   modifies p.Buf, p.Buf[len(p.Buf):cap(p.Buf)]
